@@ -1,7 +1,7 @@
 import Cello.Fail
 /-
-  C12: explicit OLD variants of model functions — the code as it was before the `fix:` commits 81e7452 (Range_Get) and
-  e60e6ec (String_Rem).  They are not part of the model (the driver never runs them); they exist so that the
+  C12: explicit OLD variants of model functions — the code as it was before the `fix:` commits 81e7452 (Range_Get),
+  e60e6ec (String_Rem) and bc940bb (Table_Get).  They are not part of the model (the driver never runs them); they exist so that the
   `…_refuted` theorems of Props/C12.lean keep stating, on the original witnesses, what the repaired defects were, next
   to what the current model does on the same inputs.
 -/
@@ -47,5 +47,17 @@ def Str.remOld (s : Str) (v : Val) : Str × Res :=
     | none => (s, .raised .ValueError)
   | .nullstr => (s, .ub)
   | _ => (s, .ok .unit)
+
+/-- `Table_Get` on an address inside the slot array before fix bc940bb:
+    `if (key >= t->data and (char*)key < (char*)t->data + t->nslots * Table_Step(self)) {`
+    `  return Table_Val(self, (((char*)key) - ((char*)t->data)) / Table_Step(self)); }`
+    — *every* address inside the array (the value object of a slot too) returned the value of the slot it lies in, before the
+    `cast` that refuses a wrong-typed key and before any lookup -/
+def Tab.getSlotOld (t : Tab) (a : SlotArg) : Tab × Res :=
+  match a with
+  | .key k | .val k =>
+    match t.items.lookup k with
+    | some v => (t, .ok (.val v))
+    | none => (t, .ub)
 
 end Cello.Fail
